@@ -727,6 +727,9 @@ func (m *Model) Next(arg int) Resp {
 			if err := checkHandlerArgs(h, args); err != nil {
 				return m.fail(err)
 			}
+			if oddShape(h.Shape) {
+				return m.fail(&mErr{any: true, what: "command handler with an unusual channel result"})
+			}
 			inv := &MInv{Index: len(m.invs), Name: s.Cmd, Args: args}
 			if len(m.scheds) > 0 {
 				inv.Sched = m.scheds[inv.Index%len(m.scheds)]
